@@ -58,3 +58,34 @@ func (n *Node) Writes() int {
 	}
 	return k
 }
+
+// WithoutTables renames every table whose name matches the LIKE pattern away, runs f, and renames them
+// back: while f runs, every statement that reads or writes such a table fails inside SQLite ("no such
+// table") — a storage fault on the READ path, which row-write triggers cannot produce.
+func (n *Node) WithoutTables(like string, f func()) (renamed int) {
+	rows, err := n.DB.Query(`SELECT name FROM sqlite_master WHERE type='table' AND name LIKE ?`, like)
+	if err != nil {
+		panic(err)
+	}
+	var tables []string
+	for rows.Next() {
+		var t string
+		rows.Scan(&t)
+		tables = append(tables, t)
+	}
+	rows.Close()
+	for _, t := range tables {
+		if _, err := n.DB.Exec(fmt.Sprintf(`ALTER TABLE %s RENAME TO %s_zzaway`, t, t)); err != nil {
+			panic(fmt.Sprintf("storekit: rename %s away: %v", t, err))
+		}
+	}
+	defer func() {
+		for _, t := range tables {
+			if _, err := n.DB.Exec(fmt.Sprintf(`ALTER TABLE %s_zzaway RENAME TO %s`, t, t)); err != nil {
+				panic(fmt.Sprintf("storekit: rename %s back: %v", t, err))
+			}
+		}
+	}()
+	f()
+	return len(tables)
+}
